@@ -158,7 +158,7 @@ Hypothesis Hs : 0 < spc.
 Hypothesis Absent : find upper (upper name) (upper name) (groups (d_recs d)) = Ok None.
 Hypothesis Made :
   (do xs <- split_all (groups (d_recs d));
-   prefix_entries name (upper (lstrip_dots name)) (existing_of xs) entry) = Ok recs_new.
+   prefix_entries name (upper (lstrip_dots name)) (existing_of upper xs) entry) = Ok recs_new.
 Hypothesis Shape : recs_new = lf ++ [s].
 Hypothesis Run : new_run lf s.
 
